@@ -211,6 +211,18 @@ pub fn run(args: &Args) -> (Meta, Stats) {
             let c = Case { input, start, last_tag, policy, discard_bom: !rng.chance(1, 6) };
             check_case(&c, st, rng.chance(1, 50));
             st.count("soup_cases");
+            // the same tokens must come out under a random feed schedule (C03 covers schedules
+            // systematically; here the chunked run is compared with the model directly)
+            if rng.chance(1, 3) {
+                let n = c.input.chars().count();
+                let cuts = gen::random_cuts(&mut rng, n);
+                if let (Ok(m), Ok(i)) = (catch(|| model_tokens(&c)), impl_tokens(&c, &cuts)) {
+                    st.count("chunked_runs_against_model");
+                    if let Some(d) = first_diff(&i, &m.0, false) {
+                        st.violation("tokens:chunked", &format!("input={} cuts={cuts:?} start={} policy={}: chunked implementation run vs WHATWG model: {d}", show(&c.input), start_state_name(c.start), c.policy.describe()), json!({"case": c.to_json(), "cuts": cuts}));
+                    }
+                }
+            }
             if st.samples.len() < 2 && rng.chance(1, 500) {
                 let (m, _) = model_tokens(&c);
                 st.sample(json!({"case": c.to_json(), "tokens": toks_json(&m)}));
